@@ -13,8 +13,11 @@ LEVEL = "exploration"
 RULE = ("exhaustive: attempts 1..4 (thorough 1..5) x all outcome sequences of that length over {ok, Base, Sub1(Base), "
         "Sub2(Base), Unrelated} x all disjoint (retry_for, do_not_retry_for) subset pairs x spellings tuple/list/set/None x "
         "retry_delay {0, 0.25}; every overlapping pair and other invalid configurations must be rejected at construction; "
-        "methods reached through __getattr__ and the item protocol. Non-trivial = sequence contains >=1 exception; distinct by the full case.")
-ASSUMPTIONS = ["which exception type rejects an invalid configuration is not demanded (ValueError or TypeError)"]
+        "outcomes that are not Exceptions (KeyboardInterrupt, SystemExit, a BaseException subclass) are never retried; sessions of 2-4 "
+        "calls through one wrapper; methods reached through __getattr__ and the item protocol. Non-trivial = sequence contains >=1 exception; distinct by the full case.")
+ASSUMPTIONS = ["which exception type rejects an invalid configuration is not demanded (ValueError or TypeError)",
+               "'exception' is read as the statement's last sentence uses it: a subclass of Exception (KeyboardInterrupt in a list is a "
+               "'non-exception class' and rejected); an outcome that is a BaseException only matches no configuration and is not retried"]
 MIN_NONTRIVIAL = {"quick": 20000, "thorough": 200000}
 REQUIRED_COUNTERS = ["inner_invocations", "sleeps_observed", "invalid_configs_rejected"]
 SHARDS = {"quick": 8, "thorough": 16}
@@ -36,9 +39,17 @@ class Unrelated(Exception):
     pass
 
 
+class Interrupt(BaseException):
+    """a gevent-style timeout: not an Exception, so no retry configuration can name it (the constructor rejects such classes)"""
+
+
 CLASSES = {"Base": Base, "Sub1": Sub1, "Sub2": Sub2, "Unrelated": Unrelated}
 NAMES = list(CLASSES)
-OUTCOMES = ["ok"] + NAMES
+# outcomes that are not 'exceptions' in the statement's own vocabulary ('non-exception classes' are rejected as configuration):
+# they are not retried under any configuration and reach the caller from the attempt that raised them
+NON_EXCEPTIONS = {"KbInt": KeyboardInterrupt, "SysExit": SystemExit, "Interrupt": Interrupt}
+ALL_CLASSES = dict(CLASSES, **NON_EXCEPTIONS)
+OUTCOMES = ["ok"] + NAMES + ["KbInt"]
 
 
 class Inner:
@@ -57,7 +68,7 @@ class Inner:
             r = object()
             self.returned.append(r)
             return r
-        e = CLASSES[o]("scripted %s" % o)
+        e = ALL_CLASSES[o]("scripted %s" % o)
         self.raised.append(e)
         raise e
 
@@ -82,6 +93,8 @@ def predict(attempts, seq, retry_for, dnr):
         o = seq[a - 1]
         if o == "ok":
             return a, "ok"
+        if o in NON_EXCEPTIONS:
+            return a, "raise"
         exc_cls = CLASSES[o]
         retry = a < attempts and (not rf or issubclass(exc_cls, rf)) and not (dn and issubclass(exc_cls, dn))
         if not retry:
@@ -130,7 +143,9 @@ def run_case(res, retrying, attempts, seq, rf, dn, how, delay, method):
             elif method == "__getitem__":
                 out = ("ret", rc[a1])
                 want_call = ("get", (a1,), {})
-        except Exception as e:
+        except BaseException as e:
+            if not isinstance(e, Exception) and not any(e is x for x in inner.raised):
+                raise
             out = ("exc", e)
             want_call = {"get": ("get", (a1,), {"default": a2}), "get_many": ("get_many", ([a1, a2],), {}),
                          "__setitem__": ("set", (a1, a2), {"noreply": True}), "__delitem__": ("delete", (a1,), {"noreply": True}),
@@ -170,6 +185,59 @@ def run_case(res, retrying, attempts, seq, rf, dn, how, delay, method):
     else:
         if out[0] != "exc" or out[1] is not inner.raised[-1]:
             res.violation("raised-object-not-last-attempts", "outcome %r, last attempt raised %r" % (out, inner.raised[-1:]), case)
+
+
+def run_session(res, retrying, attempts, seqs, rf, dn, how, delay):
+    """several calls through ONE RetryingClient: every call has the full budget of attempts, whatever earlier calls used"""
+    events = []
+    script = []
+    plan = []
+    for seq in seqs:
+        ncalls, kind = predict(attempts, seq, rf, dn)
+        script.extend(seq[:ncalls])
+        plan.append((ncalls, kind))
+    inner = Inner(script, events)
+    case = ("session", attempts, seqs, rf, dn, how, delay)
+    try:
+        rc = retrying.RetryingClient(inner, attempts=attempts, retry_delay=delay,
+                                     retry_for=spell(rf, how), do_not_retry_for=spell(dn, how))
+    except Exception as e:
+        res.violation("valid-config-rejected", "RetryingClient(attempts=%d, retry_for=%r, do_not_retry_for=%r as %s) raised %r"
+                      % (attempts, rf, dn, how, e), case)
+        return
+    saved = retrying.sleep
+    retrying.sleep = lambda d: events.append(("sleep", d))
+    try:
+        for ci, (seq, (ncalls, kind)) in enumerate(zip(seqs, plan)):
+            e0 = len(events)
+            r0, x0 = len(inner.returned), len(inner.raised)
+            key = object()
+            try:
+                out = ("ret", (rc.get if ci % 2 == 0 else rc.delete)(key))
+            except BaseException as e:
+                if not isinstance(e, Exception) and not any(e is x for x in inner.raised):
+                    raise
+                out = ("exc", e)
+            ev = events[e0:]
+            shape = [e[0] for e in ev]
+            res.count("inner_invocations", shape.count("call"))
+            res.count("sleeps_observed", shape.count("sleep"))
+            res.count("session_calls")
+            want_shape = ["call"] + ["sleep", "call"] * (ncalls - 1)
+            where = "call %d of %d on one RetryingClient(attempts=%d, retry_for=%r, do_not_retry_for=%r), outcomes so far %r" % (
+                ci + 1, len(seqs), attempts, rf, dn, [s_[:p_[0]] for s_, p_ in zip(seqs[:ci + 1], plan)])
+            if shape != want_shape:
+                res.violation("later-call-on-same-wrapper:wrong-events", "%s: events %r, expected %r" % (where, shape, want_shape), case)
+                return
+            if kind == "ok" and not (out[0] == "ret" and out[1] is inner.returned[-1] and len(inner.returned) == r0 + 1):
+                res.violation("later-call-on-same-wrapper:wrong-result", "%s: outcome %r" % (where, out), case)
+                return
+            if kind == "raise" and not (out[0] == "exc" and out[1] is inner.raised[-1]):
+                res.violation("later-call-on-same-wrapper:wrong-exception", "%s: outcome %r, last attempt raised %r"
+                              % (where, out, inner.raised[-1:]), case)
+                return
+    finally:
+        retrying.sleep = saved
 
 
 def invalid_configs(res, retrying):
@@ -234,6 +302,23 @@ def shard(tier, seed, idx, n):
                 nt = (attempts, seq, rf, dn) if any(o != "ok" for o in seq) else None
                 res.case(nt, {"attempts": attempts, "outcomes": seq, "retry_for": rf, "do_not_retry_for": dn, "spelling": how,
                               "retry_delay": delay, "method": method} if res.evaluations % 7919 == 0 else None)
+    # sessions: one wrapper, 2-4 calls in a row (state kept on the wrapper between calls would show here)
+    import random
+    rng = random.Random(seed * 131 + 17)
+    outs = OUTCOMES + ["SysExit", "Interrupt"]
+    for attempts in range(1, maxa + 1):
+        for pi, (rf, dn) in enumerate(pairs):
+            for si in range(12 if tier == "quick" else 60):
+                work += 1
+                seqs = tuple(tuple(rng.choice(outs) if rng.random() < 0.7 else "ok" for _ in range(attempts))
+                             for _ in range(rng.randrange(2, 5)))
+                how = hows[si % 4]
+                if how == "none" and (rf and dn):
+                    how = "list"
+                if work % n != idx:
+                    continue
+                run_session(res, retrying, attempts, seqs, rf, dn, how, (0, 0.25)[si % 2])
+                res.case(("session", attempts, seqs, rf, dn))
     if idx == 0:
         invalid_configs(res, retrying)
     else:
@@ -248,6 +333,9 @@ def replay(case):
     from pymemcache.client import retrying
     if case[0] in ("invalid", "valid"):
         invalid_configs(res, retrying)
+    elif case[0] == "session":
+        run_session(res, retrying, *[tuple(map(tuple, x)) if i == 1 else (tuple(x) if isinstance(x, list) else x)
+                                     for i, x in enumerate(case[1:])])
     else:
         run_case(res, retrying, *case)
     res.case(case)
